@@ -23,6 +23,12 @@ def build(variant=None):
         from . import c14
         c14.register_c14(reg)
         if variant == 'c14pair': c14.register_c14_pair(reg)
+    if variant == 'c13':
+        from . import c13
+        c13.register_c13(reg)
+    if variant == 'c13pair':
+        from . import c13
+        c13.register_c13_pair(reg)
     if variant == 'c12':
         from . import bulk
         bulk.register_c12(reg)
